@@ -212,11 +212,14 @@ func battery(i int, keys []int, vals []int) []string {
 // exhaustive: every history of exactly `length` steps over the alphabet, the full battery after every step.
 // One heap: Insert key 1 / key 2 (fresh values), Delete, DeleteAll.
 // Two heaps (mergeable): the same on both heaps plus Merge 0<-1 and 1<-0.
-func exhaustive(w *tr.W, impl, orient string, sizes []int, length int, withDeleteAll bool) {
+func exhaustive(w *tr.W, impl, orient string, sizes []int, length int, withDeleteAll bool, keys int) {
 	nh := len(sizes)
 	var alphabet []string
 	for i := 0; i < nh; i++ {
-		alphabet = append(alphabet, fmt.Sprintf("%d I 1", i), fmt.Sprintf("%d I 2", i), fmt.Sprintf("%d D", i))
+		for k := 1; k <= keys; k++ {
+			alphabet = append(alphabet, fmt.Sprintf("%d I %d", i, k))
+		}
+		alphabet = append(alphabet, fmt.Sprintf("%d D", i))
 		if withDeleteAll {
 			alphabet = append(alphabet, fmt.Sprintf("%d X", i))
 		}
@@ -499,7 +502,14 @@ func shapes(w *tr.W, r *rng.R, thorough bool) {
 			}
 		}
 	}
-	runCase(w, "MAXDEG", ns)
+	for len(ns) > 0 { // chunks: one case line stays of moderate length
+		k := len(ns)
+		if k > 5000 {
+			k = 5000
+		}
+		runCase(w, "MAXDEG", ns[:k])
+		ns = ns[k:]
+	}
 }
 
 func main() {
@@ -533,13 +543,14 @@ func main() {
 		}
 		for _, orient := range orients {
 			for _, impl := range impls {
-				exhaustive(w, impl, orient, []int{0}, l1, true)
+				exhaustive(w, impl, orient, []int{0}, l1, true, 2)
+				exhaustive(w, impl, orient, []int{0}, l1-1, false, 3)
 				if impl != "BIN" {
-					exhaustive(w, impl, orient, []int{0, 0}, l2, false)
+					exhaustive(w, impl, orient, []int{0, 0}, l2, false, 2)
 				}
 			}
 			for size := 1; size <= 4; size++ {
-				exhaustive(w, "BIN", orient, []int{size}, l1-1, false)
+				exhaustive(w, "BIN", orient, []int{size}, l1-1, false, 2)
 			}
 		}
 	case "random":
@@ -547,7 +558,7 @@ func main() {
 		if thorough {
 			random(w, r, 3000, 2000)
 		} else {
-			random(w, r, 250, 1200)
+			random(w, r, 700, 1200)
 		}
 	case "shapes":
 		shapes(w, rng.FromEnv(404), thorough)
